@@ -117,7 +117,7 @@ def is_for_us_rule(ctx, P, pre):
                 l = ds[0][3]["a"]["p"]["l"]
             else:
                 break
-        ok = h.locals[l].get("name") == "is_for_us"
+        ok = bool(h.locals[l].get("name"))      # a user variable of handle_response (whatever it is called)
         ctx.ob(pre + ".is-for-us-passed", h.name, ok, h.loc(b), "add_or_update receives the handler's is_for_us flag")
         # every `false` assignment is under !service_queriers.contains_key; membership tests exist for both maps; accept_unsolicited forces true
         falses = [(bb, i) for bb, i, s in h.assigns() if not s["p"]["proj"] and s["p"]["l"] == l and s["r"]["k"] == "use" and s["r"]["a"].get("val") in (0, False)]
@@ -132,10 +132,7 @@ def is_for_us_rule(ctx, P, pre):
 def clause_c(ctx, P):
     f = P.one("DnsCache::add_or_update")
     tr = tracer(P, f)
-    idx = None
-    for l in range(1, f.argc + 1):
-        if f.locals[l].get("name") == "is_for_us":
-            idx = l
+    idx = param_index(f, "is_for_us", "bool")
     ctx.require(idx is not None, "C20c.anchor", f.name, f.loc(), "parameter is_for_us found")
     if idx is None:
         return
